@@ -34,8 +34,12 @@ struct Abs;
 template <typename T>
 struct Abs<T, std::enable_if_t<std::is_integral<T>::value>> {
   static void to(const T& v, JsonOut& o) {
-    using U = std::make_unsigned_t<std::conditional_t<std::is_same<T, bool>::value, unsigned char, T>>;
-    o.word(static_cast<unsigned long long>(static_cast<U>(v)), sizeof(T));
+    // read the object representation (a bool filled from raw input bytes may hold any byte value)
+    unsigned char raw[sizeof(T)];
+    memcpy(raw, &v, sizeof(T));
+    unsigned long long u = 0;
+    for (size_t i = 0; i < sizeof(T); i++) u |= static_cast<unsigned long long>(raw[i]) << (8 * i);
+    o.word(u, sizeof(T));
   }
   static bool from(const Json& j, T& v) {
     if (!j.is_arr()) return false;
